@@ -50,7 +50,8 @@ def gates(tier):
     g = {
         "min_decided": {API_Q: 8000 * k, API_P: 8000 * k},
         "shapes": {f"kind:{kd}": 10 * k for kd in KINDS} | {"history:nontrivial": 100 * k, "op:clear_cache": 200 * k,
-                                                            "op:requery-shorter": 200 * k, "op:sibling": 200 * k, "op:transform": 100 * k, "op:fault": 50 * k},
+                                                            "op:requery-shorter": 200 * k, "op:sibling": 200 * k, "op:transform": 100 * k, "op:fault": 50 * k,
+                                                            "long:more-than-128-cached-prefixes": 3 * k},
         "min_hashseeds": 2,
     }
     return g
@@ -65,6 +66,15 @@ def gen_case(rng, spec):
             break
     kind = rng.choice(KINDS)
     V = sorted(g["V"])
+    if not spec.get("long") and rng.random() < 0.02:
+        # scale (also on the quick tier): one left-to-right pass of 140-220 tokens on a recursive grammar, i.e. more
+        # than a hundred cached prefixes on one object, then earlier contexts again
+        for _ in range(20):
+            g = GG.gen_grammar(rng, template=rng.choice(["right_rec", "left_rec", "centre_rec", "nullable_cycle", "linear", "unary_cycle"]))
+            if "empty_language" not in GG.analyse(g)["classes"]:
+                break
+        return {"g": {k: g[k] for k in ("S", "V", "rules")}, "kind": rng.choice(["EarleyLM", "rescaled.EarleyLM", "rescaled.Earley", "Earley", "BoolCFGLM/earley"]),
+                "long": rng.randint(140, 220), "hseed": rng.randrange(1 << 30)}
     if spec.get("long"):
         return {"g": {k: g[k] for k in ("S", "V", "rules")}, "kind": rng.choice(["EarleyLM", "rescaled.EarleyLM", "rescaled.Earley", "Earley"]),
                 "long": rng.randint(150, 400), "hseed": rng.randrange(1 << 30)}
@@ -365,6 +375,8 @@ def run_long(case, ctx, cfg, obj, V):
             break
         c = c + (rng.choice(cand),)
     ctx.shape["long:len"] += len(c)
+    if len(c) > 128:
+        ctx.shape["long:more-than-128-cached-prefixes"] += 1
     for k in sorted({0, len(c) // 3, len(c) // 2, len(c) - 1, len(c)}):
         if k < 0:
             continue
